@@ -88,6 +88,25 @@ func init() {
 			{Name: "ICMP open ack forwarded without peer test", ExpectRule: "C16.R2", ExpectKey: "agent.relayTable.byDownstream", Edits: []Edit{
 				{File: "internal/agent/icmp.go", Old: "if relay := a.icmpRelay.LookupDownstream(frame.StreamID); relay != nil && peerID == relay.DownstreamPeer {", New: "if relay := a.icmpRelay.LookupDownstream(frame.StreamID); relay != nil {"},
 			}},
+			{Name: "upstream hit validated against the downstream peer", ExpectRule: "C16.R2", ExpectKey: "agent.relayTable.byUpstream", Edits: []Edit{
+				{File: "internal/agent/agent.go", Old: "if upRelay != nil && peerID == upRelay.UpstreamPeer {", New: "if upRelay != nil && peerID == upRelay.DownstreamPeer {"},
+			}},
+			{Name: "LookupBoth returns the two indices swapped", ExpectRule: "C16.R2", ExpectKey: "agent.relayTable.by", Edits: []Edit{
+				{File: "internal/agent/relay_table.go", Old: "\tup = r.byUpstream[streamID]\n\tdown = r.byDownstream[streamID]\n", New: "\tup = r.byDownstream[streamID]\n\tdown = r.byUpstream[streamID]\n"},
+			}},
+			{Name: "seed class C16-b: non-destructive lookup helper rejects the wrong side", ExpectRule: "C16.R2", ExpectKey: "agent.relayTable.byDownstream", Edits: []Edit{
+				{File: "internal/agent/relay_table.go", Old: "// PopDownstreamFromPeer atomically looks up", New: "func (r *relayTable) LookupDownstreamFromPeer(streamID uint64, peer identity.AgentID) *relayEntry {\n\tr.mu.RLock()\n\tdefer r.mu.RUnlock()\n\te := r.byDownstream[streamID]\n\tif e == nil || e.UpstreamPeer == peer {\n\t\treturn nil\n\t}\n\treturn e\n}\n\n// PopDownstreamFromPeer atomically looks up"},
+				{File: "internal/agent/agent.go", Old: "if relay := a.tcpRelay.LookupDownstream(frame.StreamID); relay != nil && peerID == relay.DownstreamPeer {", New: "if relay := a.tcpRelay.LookupDownstreamFromPeer(frame.StreamID, peerID); relay != nil {"},
+			}},
+			{Name: "seed class C16-a: pop deletes the upstream index under the frame's id", ExpectRule: "C16.R2", ExpectKey: "agent.relayTable.byUpstream", Edits: []Edit{
+				{File: "internal/agent/relay_table.go", Old: "\t\tdelete(r.byUpstream, down.UpstreamID)\n", New: "\t\tdelete(r.byUpstream, streamID)\n"},
+			}},
+			{Name: "seed class C17-a: one lookup with fallback, either peer accepted", ExpectRule: "C16.R2", ExpectKey: "agent.relayTable.by", Edits: []Edit{
+				{File: "internal/agent/relay_table.go", Old: "\tif up := r.byUpstream[streamID]; up != nil && up.UpstreamPeer == peer {\n\t\tdelete(r.byUpstream, up.UpstreamID)\n\t\tdelete(r.byDownstream, up.DownstreamID)\n\t\treturn up, true\n\t}\n\tif down := r.byDownstream[streamID]; down != nil && down.DownstreamPeer == peer {\n\t\tdelete(r.byUpstream, down.UpstreamID)\n\t\tdelete(r.byDownstream, down.DownstreamID)\n\t\treturn down, false\n\t}\n\treturn nil, false\n", New: "\te := r.byUpstream[streamID]\n\tif e == nil {\n\t\te = r.byDownstream[streamID]\n\t}\n\tif e == nil {\n\t\treturn nil, false\n\t}\n\tswitch peer {\n\tcase e.UpstreamPeer:\n\t\tfromUpstream = true\n\tcase e.DownstreamPeer:\n\t\tfromUpstream = false\n\tdefault:\n\t\treturn nil, false\n\t}\n\tdelete(r.byUpstream, e.UpstreamID)\n\tdelete(r.byDownstream, e.DownstreamID)\n\treturn e, fromUpstream\n"},
+			}},
+			{Name: "rewrite: PopMatchingPeer selects the entry first, deletes once", Edits: []Edit{
+				{File: "internal/agent/relay_table.go", Old: "\tif up := r.byUpstream[streamID]; up != nil && up.UpstreamPeer == peer {\n\t\tdelete(r.byUpstream, up.UpstreamID)\n\t\tdelete(r.byDownstream, up.DownstreamID)\n\t\treturn up, true\n\t}\n\tif down := r.byDownstream[streamID]; down != nil && down.DownstreamPeer == peer {\n\t\tdelete(r.byUpstream, down.UpstreamID)\n\t\tdelete(r.byDownstream, down.DownstreamID)\n\t\treturn down, false\n\t}\n\treturn nil, false\n", New: "\tup, down := r.byUpstream[streamID], r.byDownstream[streamID]\n\tswitch {\n\tcase up != nil && peer == up.UpstreamPeer:\n\t\tentry, fromUpstream = up, true\n\tcase down != nil && peer == down.DownstreamPeer:\n\t\tentry = down\n\tdefault:\n\t\treturn nil, false\n\t}\n\tdelete(r.byDownstream, entry.DownstreamID)\n\tdelete(r.byUpstream, entry.UpstreamID)\n\treturn entry, fromUpstream\n"},
+			}},
 			{Name: "pending stream requests keyed by the caller's stream id", ExpectRule: "C16.R1", ExpectKey: "stream.Manager.pendingRequests", Edits: []Edit{
 				{File: "internal/stream/manager.go", Old: "m.pendingRequests[requestID] = &PendingRequest{", New: "m.pendingRequests[streamID] = &PendingRequest{"},
 			}},
@@ -314,6 +333,8 @@ type c16Eval struct {
 	R2OK     bool
 	R2Detail string
 	R2Ops    int // frame-driven entry uses / keyed operations examined
+	R2BadFns []*ssa.Function
+	SidePeer *types.Var // peer field that owns the id space of this index (entries recording several peers)
 	R3OK     bool
 	R3Detail string
 	Readers  []string // non-test readers (unread-index class)
@@ -722,6 +743,7 @@ type c16R2State struct {
 	accessor  map[*ssa.Function]map[int]bool // peerless function returning entries at these result indices
 	operator  map[*ssa.Function]map[int]bool // peerless function that looks up / deletes by the key passed in these parameters
 	directFns map[*ssa.Function]bool
+	sidePeer  *types.Var // when the entry records several peers: the one that owns this index's id space
 }
 
 func (s *c16R2State) ent(fn *ssa.Function) c16Origins {
@@ -961,8 +983,12 @@ func (s *c16R2State) entryPeerLoad(fn *ssa.Function, v ssa.Value) map[ssa.Value]
 	if !ok {
 		return nil
 	}
-	if f := kit.FieldOfAddr(fa); f == nil || !c16IsAgentID(f.Type()) {
+	f := kit.FieldOfAddr(fa)
+	if f == nil || !c16IsAgentID(f.Type()) {
 		return nil
+	}
+	if s.sidePeer != nil && f != s.sidePeer {
+		return nil // recorded peer of the other side: says nothing about who owns this id
 	}
 	return s.entries[fn][fa.X]
 }
@@ -997,6 +1023,29 @@ func (s *c16R2State) validEdges(fn *ssa.Function) []c16ValidEdge {
 					if y.Op == token.NOT {
 						work = append(work, item{y, !it.pos})
 					}
+				case *ssa.Phi:
+					// a && b / a || b evaluated as a value (case clauses of a tagless switch,
+					// assignments to a bool): the other edges are the short-circuit constants
+					allFalse, allTrue := true, true
+					for _, e := range y.Edges {
+						if e == it.v {
+							continue
+						}
+						bv, isConst := kit.ConstBool(e)
+						if !isConst {
+							allFalse, allTrue = false, false
+						} else if bv {
+							allFalse = false
+						} else {
+							allTrue = false
+						}
+					}
+					if allFalse && it.pos {
+						work = append(work, item{y, true}) // (… && equal) true ⇒ equal
+					}
+					if allTrue && !it.pos {
+						work = append(work, item{y, false}) // (… || notEqual) false ⇒ equal
+					}
 				}
 			}
 		}
@@ -1023,7 +1072,7 @@ func (s *c16R2State) validEdges(fn *ssa.Function) []c16ValidEdge {
 				return
 			}
 			// predicate helper: func (e *entry) from(p AgentID) bool { return e.Peer == p }
-			if ei, pi, eq, ok := c16PeerPredicate(kit.CalleeOf(x).Static); ok && ei < len(x.Call.Args) && pi < len(x.Call.Args) {
+			if ei, pi, eq, pf, ok := c16PeerPredicateField(kit.CalleeOf(x).Static); ok && ei < len(x.Call.Args) && pi < len(x.Call.Args) && (s.sidePeer == nil || pf == s.sidePeer) {
 				if org := s.entries[fn][x.Call.Args[ei]]; len(org) > 0 && s.cx.peerValue(x.Call.Args[pi]) {
 					addIfs(x, eq, org)
 				}
@@ -1037,12 +1086,17 @@ func (s *c16R2State) validEdges(fn *ssa.Function) []c16ValidEdge {
 // AgentID field of one parameter with another (AgentID) parameter: returns the two parameter
 // indices and whether true means equal.
 func c16PeerPredicate(fn *ssa.Function) (entryIdx, peerIdx int, trueMeansEqual, ok bool) {
+	entryIdx, peerIdx, trueMeansEqual, _, ok = c16PeerPredicateField(fn)
+	return
+}
+
+func c16PeerPredicateField(fn *ssa.Function) (entryIdx, peerIdx int, trueMeansEqual bool, field *types.Var, ok bool) {
 	if fn == nil || fn.Blocks == nil || fn.Signature.Results().Len() != 1 || !kit.IsRepoPkg(kit.FuncPkgPath(fn)) {
-		return 0, 0, false, false
+		return 0, 0, false, nil, false
 	}
 	rets := kit.Returns(fn)
 	if len(rets) != 1 || len(rets[0].Results) != 1 {
-		return 0, 0, false, false
+		return 0, 0, false, nil, false
 	}
 	v, pos := rets[0].Results[0], true
 	for {
@@ -1056,7 +1110,7 @@ func c16PeerPredicate(fn *ssa.Function) (entryIdx, peerIdx int, trueMeansEqual, 
 	switch x := v.(type) {
 	case *ssa.BinOp:
 		if x.Op != token.EQL && x.Op != token.NEQ {
-			return 0, 0, false, false
+			return 0, 0, false, nil, false
 		}
 		a, b = x.X, x.Y
 		if x.Op == token.NEQ {
@@ -1064,11 +1118,11 @@ func c16PeerPredicate(fn *ssa.Function) (entryIdx, peerIdx int, trueMeansEqual, 
 		}
 	case *ssa.Call:
 		if !kit.CalleeOf(x).Is("internal/identity", "AgentID", "Equal") || len(x.Call.Args) != 2 {
-			return 0, 0, false, false
+			return 0, 0, false, nil, false
 		}
 		a, b = x.Call.Args[0], x.Call.Args[1]
 	default:
-		return 0, 0, false, false
+		return 0, 0, false, nil, false
 	}
 	paramIdx := func(v ssa.Value) int {
 		for i, pa := range fn.Params {
@@ -1085,10 +1139,10 @@ func c16PeerPredicate(fn *ssa.Function) (entryIdx, peerIdx int, trueMeansEqual, 
 		}
 		ei, pi := paramIdx(base), paramIdx(pair[1])
 		if ei >= 0 && pi >= 0 && c16IsAgentID(fn.Params[pi].Type()) {
-			return ei, pi, pos, true
+			return ei, pi, pos, f, true
 		}
 	}
-	return 0, 0, false, false
+	return 0, 0, false, nil, false
 }
 
 // computeOperators finds peerless functions that act on the table by a key they are handed.
@@ -1165,6 +1219,8 @@ func (s *c16R2State) ownKey(key ssa.Value) bool {
 }
 
 type c16Op struct {
+	blk     *ssa.BasicBlock // where the (unvalidated) value must not arrive
+	to      *ssa.BasicBlock // for a phi edge: the block the value flows on to (the edge blk→to may itself validate)
 	in      ssa.Instruction
 	origins map[ssa.Value]bool // nil: keyed operation (any validated entry of the table counts)
 	what    string
@@ -1181,13 +1237,69 @@ func (s *c16R2State) opsOf(fn *ssa.Function) []c16Op {
 	sort.Slice(vals, func(i, j int) bool {
 		return vals[i].Pos() < vals[j].Pos() || (vals[i].Pos() == vals[j].Pos() && vals[i].Name() < vals[j].Name())
 	})
+	// flow(v, at): the places where v, as it arrives at block `at`, must already be validated. A
+	// phi is judged edge by edge (the value that flows in from a predecessor must have been
+	// validated on the way to that predecessor), so "entry = up" in one arm and "entry = down" in
+	// another are each held against their own comparison.
+	var flow func(v ssa.Value, at, to *ssa.BasicBlock, u ssa.Instruction, what string, seen map[ssa.Value]bool)
+	flow = func(v ssa.Value, at, to *ssa.BasicBlock, u ssa.Instruction, what string, seen map[ssa.Value]bool) {
+		if phi, isPhi := v.(*ssa.Phi); isPhi {
+			if seen[v] {
+				return
+			}
+			seen[v] = true
+			for i, e := range phi.Edges {
+				if len(o[e]) > 0 && i < len(phi.Block().Preds) {
+					flow(e, phi.Block().Preds[i], phi.Block(), u, what, seen)
+				}
+			}
+			return
+		}
+		// a local variable (named result, captured or address-taken local): judge each
+		// assignment that can still be the current one where it was made
+		if ld, isLd := v.(*ssa.UnOp); isLd && ld.Op == token.MUL {
+			if a, isAlloc := ld.X.(*ssa.Alloc); isAlloc {
+				if seen[v] {
+					return
+				}
+				seen[v] = true
+				stores := map[ssa.Instruction]bool{}
+				for _, rf := range *a.Referrers() {
+					if st, isSt := rf.(*ssa.Store); isSt && st.Addr == a {
+						stores[st] = true
+					}
+				}
+				found := false
+				for sti := range stores {
+					st := sti.(*ssa.Store)
+					if len(o[st.Val]) == 0 {
+						continue
+					}
+					others := map[ssa.Instruction]bool{}
+					for x := range stores {
+						if x != sti {
+							others[x] = true
+						}
+					}
+					if kit.CanReachAvoiding(st, ld, others) {
+						found = true
+						flow(st.Val, st.Block(), nil, u, what, seen)
+					}
+				}
+				if found {
+					return
+				}
+			}
+		}
+		ops = append(ops, c16Op{at, to, u, o[v], what})
+	}
 	for _, v := range vals {
 		if v.Referrers() == nil {
 			continue
 		}
 		for _, u := range *v.Referrers() {
 			if s.useKind(v, u) == c16UseOp {
-				ops = append(ops, c16Op{u, o[v], "entry used"})
+				flow(v, u.Block(), nil, u, "entry used", map[ssa.Value]bool{})
 			}
 		}
 	}
@@ -1198,7 +1310,7 @@ func (s *c16R2State) opsOf(fn *ssa.Function) []c16Op {
 		for i := range ret.Results {
 			rv := kit.ReturnResult(ret, i)
 			if org := o[rv]; len(org) > 0 {
-				ops = append(ops, c16Op{ret, org, "entry returned"})
+				flow(rv, ret.Block(), nil, ret, "entry returned", map[ssa.Value]bool{})
 			}
 		}
 	}
@@ -1211,12 +1323,12 @@ func (s *c16R2State) opsOf(fn *ssa.Function) []c16Op {
 		if cal.Built == "delete" && len(c.Common().Args) == 2 && !s.ownKey(c.Common().Args[1]) {
 			for _, leaf := range kit.PhiLeaves(c.Common().Args[0]) {
 				if f, _ := kit.LoadedField(leaf); f == s.ev.Field {
-					ops = append(ops, c16Op{in, nil, "keyed delete"})
+					ops = append(ops, c16Op{in.Block(), nil, in, nil, "keyed delete"})
 				}
 			}
 		}
 		if cal.Static != nil && len(s.operator[cal.Static]) > 0 {
-			ops = append(ops, c16Op{in, nil, "call of " + kit.FuncName(cal.Static)})
+			ops = append(ops, c16Op{in.Block(), nil, in, nil, "call of " + kit.FuncName(cal.Static)})
 		}
 	})
 	return ops
@@ -1225,6 +1337,9 @@ func (s *c16R2State) opsOf(fn *ssa.Function) []c16Op {
 func (cx *c16Ctx) c16EvalR2(ev *c16Eval) {
 	s := &c16R2State{cx: cx, ev: ev, entries: map[*ssa.Function]c16Origins{}, accessor: map[*ssa.Function]map[int]bool{},
 		operator: map[*ssa.Function]map[int]bool{}, directFns: map[*ssa.Function]bool{}}
+	s.sidePeer = cx.c16SidePeer(ev)
+	ev.SidePeer = s.sidePeer
+	ev.R2BadFns, ev.R2Ops = nil, 0
 	s.collect()
 	s.computeOperators()
 	// candidate functions: every peer-aware function that holds an entry, deletes by key or calls an operator
@@ -1263,7 +1378,7 @@ func (cx *c16Ctx) c16EvalR2(ev *c16Eval) {
 					blocked[ve.edge] = true
 				}
 			}
-			if kit.Reach(fn.Blocks[0], blocked, nil)[op.in.Block()] {
+			if kit.Reach(fn.Blocks[0], blocked, nil)[op.blk] && (op.to == nil || !blocked[kit.Edge{From: op.blk, To: op.to}]) {
 				fnBad[op.what] = true
 			}
 		}
@@ -1273,7 +1388,12 @@ func (cx *c16Ctx) c16EvalR2(ev *c16Eval) {
 				ws = append(ws, w)
 			}
 			sort.Strings(ws)
-			bad = append(bad, kit.FuncName(fn)+" ("+strings.Join(ws, ", ")+" without comparing the entry's recorded peer with the sending peer)")
+			ev.R2BadFns = append(ev.R2BadFns, fn)
+			side := "the entry's recorded peer"
+			if s.sidePeer != nil {
+				side = "the entry's " + s.sidePeer.Name() + " (the peer whose connection numbered this index)"
+			}
+			bad = append(bad, kit.FuncName(fn)+" ("+strings.Join(ws, ", ")+" without comparing "+side+" with the sending peer)")
 		}
 	}
 	if len(bad) == 0 {
@@ -1386,6 +1506,120 @@ func (cx *c16Ctx) c16EvalR3(ev *c16Eval) {
 		return
 	}
 	ev.R3Detail = "insertion overwrites whatever entry another peer registered under the same number (no key-absent test): " + strings.Join(c16Head(bad, 4), "; ")
+}
+
+// c16SidePeer: for a table whose entries record more than one peer (the relay entry has an
+// upstream and a downstream peer) only one of them owns the id space of a given index: the peer
+// on whose connection the index key was numbered. It is derived from the places that build an
+// entry: the key field filled from the received frame pairs with the peer field filled with the
+// sending peer; the key field filled by a call on a connection pairs with the peer field filled
+// with the value that connection was obtained for. Falls back to the longest common field-name
+// prefix. Returns nil when the entry records at most one peer (nothing to tell apart).
+func (cx *c16Ctx) c16SidePeer(ev *c16Eval) *types.Var {
+	pt, ok := c16EntryType(ev).(*types.Pointer)
+	if !ok {
+		return nil
+	}
+	named, _ := pt.Elem().(*types.Named)
+	st, ok := pt.Elem().Underlying().(*types.Struct)
+	if !ok || named == nil {
+		return nil
+	}
+	var peers, ids []*types.Var
+	for i := 0; i < st.NumFields(); i++ {
+		f := st.Field(i)
+		if c16IsAgentID(f.Type()) {
+			peers = append(peers, f)
+		} else if b, isB := f.Type().Underlying().(*types.Basic); isB && b.Kind() == types.Uint64 {
+			ids = append(ids, f)
+		}
+	}
+	if len(peers) < 2 {
+		return nil
+	}
+	// the entry field this index is keyed by
+	var keyField *types.Var
+	for _, acc := range cx.p.FieldAccessesOfKind(ev.Field, kit.MapInsert) {
+		if f, base := kit.LoadedField(c16Strip(acc.Key)); f != nil && base != nil && types.Identical(base.Type(), c16EntryType(ev)) {
+			keyField = f
+		}
+	}
+	if keyField == nil {
+		return nil
+	}
+	votes := map[*types.Var]int{}
+	for _, fn := range cx.p.RepoFuncs() {
+		kit.Instrs(fn, func(in ssa.Instruction) {
+			a, isAlloc := in.(*ssa.Alloc)
+			if !isAlloc || !types.Identical(a.Type(), c16EntryType(ev)) {
+				return
+			}
+			vals := map[*types.Var]ssa.Value{}
+			for _, rf := range *a.Referrers() {
+				fa, isFA := rf.(*ssa.FieldAddr)
+				if !isFA {
+					continue
+				}
+				for _, rf2 := range *fa.Referrers() {
+					if stv, isSt := rf2.(*ssa.Store); isSt && stv.Addr == fa {
+						vals[kit.FieldOfAddr(fa)] = stv.Val
+					}
+				}
+			}
+			kv := vals[keyField]
+			if kv == nil {
+				return
+			}
+			kv = c16Strip(kv)
+			for _, pf := range peers {
+				pv := vals[pf]
+				if pv == nil {
+					continue
+				}
+				// key read from the received frame ↔ peer field holding the sender
+				if _, base := kit.LoadedField(kv); base != nil && c16IsFramePtr(base.Type()) && cx.peerValue(pv) {
+					votes[pf]++
+				}
+				// key allocated on a connection ↔ peer field holding what that connection was looked up by
+				if c, _, isCall := kit.ResultOf(kv); isCall {
+					if recv := kit.Receiver(c); recv != nil {
+						if c2, _, isCall2 := kit.ResultOf(recv); isCall2 {
+							for _, arg := range c2.Call.Args {
+								if arg == pv {
+									votes[pf]++
+								}
+							}
+						}
+					}
+				}
+			}
+		})
+	}
+	var best *types.Var
+	for pf, n := range votes {
+		if best == nil || n > votes[best] {
+			best = pf
+		} else if n == votes[best] {
+			best = nil
+		}
+	}
+	if best != nil {
+		return best
+	}
+	// fallback: longest common name prefix between the key field and a peer field
+	bestLen := 2
+	for _, pf := range peers {
+		n := 0
+		for n < len(pf.Name()) && n < len(keyField.Name()) && pf.Name()[n] == keyField.Name()[n] {
+			n++
+		}
+		if n > bestLen {
+			best, bestLen = pf, n
+		} else if n == bestLen {
+			best = nil
+		}
+	}
+	return best
 }
 
 // c16Evaluate runs the three rules on one table.
